@@ -24,6 +24,8 @@ TECHNIQUE += "; origin tracing of every ParseInfo field to the invoked rule's Ru
 LEVEL_TEXT += " Added clauses: the rule name in ParseInfo is the invoked rule's (not the top of the call stack); line queries at the end of text and on the empty text do not index out of range."
 TECHNIQUE += '; delivery of the ParseInfo (set_parseinfo interpreted on nodes with a set_parseinfo method, with a parseinfo attribute, and plain values; AST.set_parseinfo stores under the key its property reads)'
 LEVEL_TEXT += ' Added clause: parse information reaches both dict-like ASTs and model nodes, and nothing when it is off.'
+TECHNIQUE += '; freshness of make_parseinfo (a new record per call; no reuse keyed on a subset of the fields)'
+LEVEL_TEXT += ' Added clause: two invocations with the same rule and start get their own end positions.'
 LEVEL_NOTE = 'Trusted: str.splitlines(True) ends lines at \\n, \\r and \\r\\n (and keeps the terminators).'
 EXPLANATION = ('Static analysis of /repo sources, TatSu not imported. split_block_lines is resolved through helper functions to '
                'its splitting primitive; regex literals are compiled to NFAs by the checker and compared by language inclusion.')
